@@ -354,6 +354,11 @@ func VerifC11_RoundsThenForwarding() {
 				accounts[phase0.ValidatorIndex(i+1)] = accs[i]
 			}
 		}
+		// a validator that joins in the second round may fail to sign its registration: it is then not
+		// registered this round, and it is Vouch's validator all the same
+		for i := range accs {
+			signer.failFor[uint64(i+1)] = round == 1 && in[1][i] && !in[0][i] && vnd.Bool("signing-fails-for-the-joining-validator")
+		}
 		before := len(relay.calls)
 		_ = s.submitValidatorRegistrationsForAccounts(context.Background(), accounts)
 		vnd.Quiesce()
@@ -367,7 +372,7 @@ func VerifC11_RoundsThenForwarding() {
 				}
 			}
 			want := 0
-			if in[round][i] {
+			if in[round][i] && !signer.failFor[uint64(i+1)] {
 				want = 1
 			}
 			vnd.Assert(got == want, "C11.rounds.exactly-the-validators-of-the-round-are-registered")
